@@ -128,7 +128,7 @@ def _uses_maporder(pkg_rel, harness):
     return False
 
 
-def replay(pkg_path, pkg_rel, harness, model):
+def replay(pkg_path, pkg_rel, harness, model, stress=True):
     """Run the harness natively on a model.  Returns dict(kind= ok|assert|panic|assume|error, detail)."""
     w = build.workdir()
     d = tempfile.mkdtemp(prefix='replay', dir=w)
@@ -157,7 +157,7 @@ def replay(pkg_path, pkg_rel, harness, model):
     env = build.goenv()
     env['VERIF_MODEL'] = mf
     env['VERIF_HARNESS'] = harness
-    if any(k.startswith('sched') for k in model):
+    if stress and any(k.startswith('sched') for k in model):
         env['VERIF_REPEAT'] = '30000'     # the counterexample depends on the schedule: stress replay
     env['CGO_ENABLED'] = '0'
     from . import runner as _r
@@ -165,7 +165,7 @@ def replay(pkg_path, pkg_rel, harness, model):
     r = subprocess.run(['go', 'test', '-v', '-vet=off', '-count=1', '-overlay', ovf, '-run', 'TestZZVerifReplay', './' + host_rel],
                        cwd=build.REPO, env=env, capture_output=True, text=True, timeout=600)
     out = r.stdout + r.stderr
-    if 'VERIF-REPLAY: ok' in out and 'VERIF_REPEAT' not in env and _uses_maporder(pkg_rel, harness):
+    if stress and 'VERIF-REPLAY: ok' in out and 'VERIF_REPEAT' not in env and _uses_maporder(pkg_rel, harness):
         # the harness fixes the iteration order of Go maps symbolically (verifrt.MapOrder); natively Go randomises it,
         # so the counterexample is order-dependent: repeat the harness until the assertion fails once
         env['VERIF_REPEAT'] = '3000'
